@@ -982,8 +982,9 @@ func ParseFunction(functionToken_ Token) (string, []Token) {
 			arguments = append(arguments, token)
 		}
 	}
-	if lastIsComma {
+	name := utils.AsciiLower(functionToken.Name)
+	if lastIsComma && name != "var" { // var(--a,) has an empty fallback
 		return "", nil
 	}
-	return utils.AsciiLower(functionToken.Name), arguments
+	return name, arguments
 }
